@@ -71,8 +71,15 @@ enum : int
                           ///< values = n, history size h, g[n], s_0..s_{h-1}[n] (oldest first), y_0..y_{h-1}[n], r[n] = H*g)
     ev_ellipsoid_update,  ///< ellipsoid method: centre and shape matrix updated (object = the solver,
                           ///< values = n, f(x), best f, gHg, x before[n], g[n], H before[n*n], x after[n], H after[n*n])
-    ev_cgd_direction      ///< conjugate gradient descent: direction chosen (object = the solver,
+    ev_cgd_direction,     ///< conjugate gradient descent: direction chosen (object = the solver,
                           ///< values = n, beta, restarted (0/1), orthotest, previous g[n], previous d[n], current g[n], chosen d[n])
+    ev_program_start = 48, ///< interior point: the program as solved, i.e. reduced and normalized (object = the solver,
+                           ///< values = n, m, p, q (0: no Q), mufx, Q[q*n*n], c[n], A[p*n], b[p], G[m*n], h[m], x0[n])
+    ev_program_iter        ///< interior point: one iteration done (object = the solver, values = n, m, p, exit (0: go on,
+                           ///< 1: unstable system, 2: stage 1 exhausted, 3: stage 2 exhausted, 4: non-finite, 5: precise
+                           ///< convergence), s0*smax, s after stage 1, s after stage 2, iterations of stage 1, of stage 2,
+                           ///< r0, miu, alpha, beta, s0, then x[n], u[m], v[p], rdual[n], rcent[m], rprim[p] before,
+                           ///< dx[n], du[m], dv[p], then x[n], u[m], v[p], eta, residual and status after)
 };
 } // namespace nano::verif
 
